@@ -43,6 +43,14 @@ type Op struct {
 	Note    string `json:"note,omitempty"`
 	// retag: the new tags of declaration Path in package K (same number of lines: positions do not move)
 	Tags []Tag `json:"tags,omitempty"`
+	// MTime (edit, touch, retag): what the file's clock says after the write - "" the real time of the
+	// write; "keep" the modification time the file had before (a restore that preserves timestamps, an
+	// edit within the timestamp granularity); "past" a time long before everything else in the tree
+	// (a file unpacked from an archive, a machine whose clock is behind); "future" (a clock that is ahead)
+	MTime string `json:"mtime,omitempty"`
+	// SameSize (touch): the appended comment has a fixed width, so that two such edits of one file differ
+	// in content only, not in size
+	SameSize bool `json:"same_size,omitempty"`
 }
 
 // Variant is one continuation of the world built by Setup.
